@@ -223,6 +223,7 @@ class Printer:
         self.membermap = unit.get('membermap', {})
         self.freevars = OrderedDict()       # for fragments: decl id -> (name, ctype, isvec)
         self.fragment = False
+        self._ret_target = None
         self.local_ids = set()
 
     # ------------------------------------------------------------------ helpers
@@ -684,6 +685,29 @@ class Printer:
         if nm == 'move' or nm == 'forward':
             self.fire('call:std-move')
             return self.e(args[0])
+        if nm in ('sort', 'stable_sort') and len(args) in (2, 3):
+            # std::sort(v.begin(), v.end()[, std::greater<>()]) on a whole vector -> sorting shim of that vector type
+            def whole(a, which):
+                a = self.skip(a)
+                while a.get('kind') in ('ImplicitCastExpr', 'CXXConstructExpr', 'MaterializeTemporaryExpr') and a.get('inner'):
+                    a = a['inner'][0]
+                if a.get('kind') == 'CXXMemberCallExpr' and a['inner'][0].get('name') == which:
+                    return a['inner'][0]['inner'][0]
+                return None
+            vb, ve = whole(args[0], 'begin'), whole(args[1], 'end')
+            if vb is None or ve is None or self.e(vb) != self.e(ve):
+                self.brk('std::%s not over a whole vector' % nm, n)
+            order = 'asc'
+            if len(args) == 3:
+                q3 = args[2].get('type', {}).get('qualType', '')
+                if 'greater' in q3:
+                    order = 'desc'
+                else:
+                    self.brk('std::%s with a comparator that is not std::greater<>' % nm, n)
+            fn = '%s_sort_%s' % (self.ctype_of(vb), order)
+            self.called[fn] += 1
+            self.fire('call:std-sort')
+            return '%s(&%s)' % (fn, self.e(vb))
         if nm in ('max', 'min') and len(args) == 2:
             a, b = self.skip(args[0]), self.skip(args[1])
             if has_side_effect(a) or has_side_effect(b):
@@ -706,7 +730,11 @@ class Printer:
             self.brk('call to %s (%s) not in the unit callmap' % (nm, sig), n)
         self.called[fn] += 1
         self.fire('call:function')
-        return '%s(%s)' % (fn, ', '.join(self.arg(a) for a in args))
+        al = [self.arg(a) for a in args]
+        if getattr(self, '_ret_target', None) and self.is_vec_expr(n):
+            al.append(self._ret_target)
+            self._ret_target = None
+        return '%s(%s)' % (fn, ', '.join(al))
 
     def construct(self, n):
         I = [a for a in (n.get('inner') or []) if a.get('kind') != 'CXXDefaultArgExpr']
@@ -796,6 +824,14 @@ class Printer:
                         s += t + '%s.size = 0;\n' % ref + t + '%s(&%s, &%s);\n' % (fn, ref, self.e(self.skip(cargs[0])))
                     else:
                         self.brk('vector constructor form', v)
+                elif c.get('kind') in ('CallExpr', 'CXXMemberCallExpr'):
+                    # vector returned by value from a function under contract: the callee fills an out-parameter
+                    self.fire('decl:vector-from-call')
+                    s += t + '%s.size = 0;\n' % ref
+                    self._ret_target = '&' + ref
+                    call_txt = self.e(c)
+                    self._ret_target = None
+                    s += t + call_txt + ';\n'
                 else:
                     self.brk('vector initialiser kind ' + str(c.get('kind')), v)
             else:
